@@ -1,9 +1,11 @@
 #!/bin/sh
-# apply every seeded change in turn, run the checks its meta.json names (quick tier), record the outcome
+# usage: seeded_matrix.sh [dir-prefix]  — apply every seeded change (whose directory name starts with the prefix) in turn,
+# run the checks its meta.json names (quick tier), record the outcome in seeded/RESULTS.txt
 cd /verif
 out=seeded/RESULTS.txt
-: > $out.new
-for d in seeded/*/; do
+pre=${1:-}
+[ -n "$pre" ] && grep -v "^$pre" $out > $out.new 2>/dev/null || : > $out.new
+for d in seeded/$pre*/; do
   id=$(basename $d)
   [ -f $d/patch.diff ] || continue
   props=$(python3 -c "import json;print(' '.join(json.load(open('$d/meta.json'))['run_props']))")
@@ -17,6 +19,6 @@ for d in seeded/*/; do
   done
   git -C /repo checkout -- .
 done
-mv $out.new $out
+sort $out.new > $out; rm -f $out.new
 # leave the tree and the build outputs in the unchanged state
 sh /verif/setup.sh > /dev/null 2>&1
